@@ -361,6 +361,10 @@ def run(model: RepoModel, rep, tier: str):
     _r5_change_propagation(model, rep, p2)
     _r6_worklist_protocol(model, rep, p2)
     _r8_visit_bound(model, rep)
+    # which declaration an assignment defines is decided by the hoisting pass: its rules are necessary conditions here too (a
+    # parameter shadowed by a spurious local declaration loses its incoming definition)
+    from .c05 import _r9_hoisting
+    _r9_hoisting(model, rep, "C06.R9")
     from ..generic import check_accumulators
     check_accumulators(model, rep, "C06.R7", ["basics/stmt_def_use_analysis.py"], C06_ADJUDICATED,
                        "used or defined symbols of a statement are missing from its status, so definitions reaching those uses are not linked", 20)
